@@ -377,6 +377,28 @@ Fixpoint model_under_dict (t : vt) : bool :=
   | _ => false
   end.
 
+(* ---- the stream behind an Upload: content, current position, seekability.
+   All four clients hand the stream object itself to httpx (files={i: (filename, content, type)});
+   httpx's multipart FileField.render_data rewinds a seekable stream (seek(0)) and reads to EOF, a
+   non-seekable one is read from where it stands.  "The file" of the multipart spec is therefore the
+   whole content of a seekable stream, whatever its position when execute is called. ---- *)
+Record upload := mk_upload {
+  up_filename : string; up_ctype : string; up_content : string; up_pos : nat; up_seekable : bool }.
+Fixpoint drop_s (n : nat) (s : string) : string :=
+  match n, s with
+  | 0, _ => s
+  | S m, String _ r => drop_s m r
+  | S _, EmptyString => EmptyString
+  end.
+Definition sent_bytes (u : upload) : string :=
+  if up_seekable u then up_content u else drop_s (up_pos u) (up_content u).
+Definition set_pos (n : nat) (u : upload) : upload :=
+  mk_upload (up_filename u) (up_ctype u) (up_content u) n (up_seekable u).
+Definition after_send (u : upload) : upload := set_pos (String.length (up_content u)) u.
+(* the same Upload sent n times in a row (a history on any clients): the bytes of each send *)
+Fixpoint send_n (n : nat) (u : upload) : list string :=
+  match n with 0 => [] | S m => sent_bytes u :: send_n m (after_send u) end.
+
 (* ---- sexp interface ---- *)
 Definition dField (e : sexp) : option mfield :=
   match e with
@@ -511,6 +533,13 @@ Definition run_client (e : sexp) : sexp :=
              L (map (fun n => A n) (wire_values "content-type"
                   (match snd (execute (mk_cstate url None) c) with RJson _ hh _ _ => hh | _ => [] end)))]
       | _, _, _, _ => sErr "execute: bad arguments"
+      end
+  | L [A "sent_bytes"; A content; pos; seekable] =>
+      match dNat pos, dB seekable with
+      | Some n, Some b =>
+          let u := mk_upload "" "" content n b in
+          L [A (sent_bytes u); sN (up_pos (after_send u)); L (map (fun x => A x) (send_n 3 u))]
+      | _, _ => sErr "sent_bytes: bad arguments"
       end
   | _ => sErr "client: bad command"
   end.
